@@ -1,7 +1,7 @@
 //! Native trace generator for local-channel (real crate, public API only).
 //! stdin: one operation sequence per line; stdout: one trace line per sequence.
 //! ops: send:<sender idx>:<u8>  clone:<idx>  dropS:<idx>  close:<idx>  poll  rsender  dropR
-//! trace item: <result>|<waker id>=<wakes during this op>,...   (the k-th poll uses waker id k)
+//! trace item: <result>|<waker id>=<wakes during this op>,...   (the k-th poll uses waker id k mod 3)
 use futures_core::Stream;
 use local_channel::mpsc;
 use std::{cell::RefCell, io::BufRead, pin::Pin, task::{Context, Poll, RawWaker, RawWakerVTable, Waker}};
@@ -40,7 +40,7 @@ fn main() {
                 "poll" => match &mut rx {
                     None => "skip".into(),
                     Some(r) => {
-                        let w = waker(npoll); npoll += 1;
+                        let w = waker(npoll % 3); npoll += 1;
                         let mut cx = Context::from_waker(&w);
                         match Pin::new(r).poll_next(&mut cx) { Poll::Pending => "pending".into(), Poll::Ready(None) => "none".into(), Poll::Ready(Some(v)) => format!("some{}", v) }
                     }
